@@ -71,6 +71,7 @@ type State struct {
 	EqLits      map[string]string // terms an Assume fixed to a literal string
 	B64         map[string]StrV   // base64 encoding term -> the string that was encoded
 	BlobOf      map[string]int    // opaque string standing for a structured blob -> heap object
+	FileOf      map[string]int    // opaque file name (zz.YAMLFile) -> heap object of its content
 	Now0        string
 	Occ         map[string]int
 	Nondet      []NondetRec
@@ -131,6 +132,12 @@ func (s *State) Fork() *State {
 		n.B64 = make(map[string]StrV, len(s.B64))
 		for k, v := range s.B64 {
 			n.B64[k] = v
+		}
+	}
+	if s.FileOf != nil {
+		n.FileOf = make(map[string]int, len(s.FileOf))
+		for k, v := range s.FileOf {
+			n.FileOf[k] = v
 		}
 	}
 	if s.BlobOf != nil {
